@@ -109,6 +109,7 @@ class Env(object):
         self.keys = {}            # hash of state key -> nontrivial?
         self._atoms = {}
         self.parsed = {}
+        self.diag = {}
 
     def atom(self, key):
         key = tuple(key)
@@ -277,47 +278,63 @@ def count_class(c):
     return "six-digits-suffice" if needs_no_more(c) else "more-than-six-digits"
 
 
+def _diagnose_atom(E, a):
+    """Cause name if the atom alone does not survive print + parse, else None."""
+    p = None
+    try:
+        p = str(E.formula([(1, a)]))
+        st = E.formula(p).structure
+        ok = len(st) == 1 and st[0][1] is a and st[0][0] == 1
+    except Exception:
+        ok = False
+    if ok:
+        return None
+    kind = atom_kind(E, a)
+    if kind == "DT-ion" and p and "[" in p:
+        return "DT-ion-printed-with-isotope-tag"
+    return "atom-does-not-round-trip:" + kind
+
+
+def _diagnose_count(E, pos, c):
+    """Cause name if the count alone (on H, or on the group (HO)) does not survive, else None."""
+    H, O = E.atom(("H", 0, 0)), E.atom(("O", 0, 0))
+    probe = [(c, H)] if pos == "atom" else [(c, [(1, H), (1, O)])]
+    p = back = None
+    try:
+        p = str(E.formula(probe))
+        gs = E.formula(p).structure
+        ok = same(E, probe, gs) is None
+        # a group probe that comes back spliced was read with count 1
+        back = gs[0][0] if len(gs) == 1 else 1 if (pos == "group" and len(gs) == 2) else None
+    except Exception:
+        ok = False
+    if ok:
+        return None
+    if p and _EXPONENT.search(p):
+        return "count-printed-in-exponent-notation"
+    if back is None:
+        return "count-printed-unreadable"
+    if isinstance(back, (int, float)) and abs(back - c) <= 0.01 * c:
+        return "count-printed-with-less-than-six-digits"
+    return "count-changed"
+
+
 def diagnose(E, f, what):
     """Name the CAUSE of a failed round trip: print every atom and every count of f on its own and
     see which of them fails alone.  (Only names the signature; the verdict is already in.)"""
     causes = set()
     atoms, counts = {}, {}
     _leaves(f.structure, atoms, counts)
-    H, O = E.atom(("H", 0, 0)), E.atom(("O", 0, 0))
     for a in atoms.values():
-        p = None
-        try:
-            p = str(E.formula([(1, a)]))
-            st = E.formula(p).structure
-            ok = len(st) == 1 and st[0][1] is a and st[0][0] == 1
-        except Exception:
-            ok = False
-        if not ok:
-            kind = atom_kind(E, a)
-            if kind == "DT-ion" and p and "[" in p:
-                causes.add("DT-ion-printed-with-isotope-tag")
-            else:
-                causes.add("atom-does-not-round-trip:" + kind)
-    for (pos, _, _), c in counts.items():
-        probe = [(c, H)] if pos == "atom" else [(c, [(1, H), (1, O)])]
-        p = back = None
-        try:
-            p = str(E.formula(probe))
-            gs = E.formula(p).structure
-            ok = same(E, probe, gs) is None
-            # a group probe that comes back spliced was read with count 1
-            back = gs[0][0] if len(gs) == 1 else 1 if (pos == "group" and len(gs) == 2) else None
-        except Exception:
-            ok = False
-        if not ok:
-            if p and _EXPONENT.search(p):
-                causes.add("count-printed-in-exponent-notation")
-            elif back is None:
-                causes.add("count-printed-unreadable")
-            elif isinstance(back, (int, float)) and abs(back - c) <= 0.01 * c:
-                causes.add("count-printed-with-less-than-six-digits")
-            else:
-                causes.add("count-changed")
+        k = ("atom", E.akey(a))
+        if k not in E.diag:
+            E.diag[k] = _diagnose_atom(E, a)
+        causes.add(E.diag[k])
+    for k, c in counts.items():
+        if k not in E.diag:
+            E.diag[k] = _diagnose_count(E, k[0], c)
+        causes.add(E.diag[k])
+    causes.discard(None)
     if not causes:
         causes.add({"rejected": "printed-string-rejected", "atom": "atom-changed", "count": "count-changed",
                     "nesting": "nesting-changed"}[what] + ":only-in-context")
@@ -416,7 +433,10 @@ def produce(E, case):
     elif k == "mix":
         args = []
         for lab, q in case["parts"]:
-            args += [COMPONENTS[lab][1](E), q]
+            comp = E.parsed.get("mix:" + lab)      # components are built once per process and
+            if comp is None:                       # handed to the constructors as shallow copies
+                comp = E.parsed["mix:" + lab] = COMPONENTS[lab][1](E)
+            args += [copy.copy(comp), q]
         kw = dict(name=case["name"]) if case.get("name") else {}
         f = E.mix[case["fn"]](*args, **kw)
     else:
@@ -845,12 +865,13 @@ def plan(quick):
         n = 6 if quick else 24
         P += [(shard_ops, (base, p, n, 2 if quick else 3, not quick)) for p in range(n)]
     # P
-    lex = [(1, c01.GAPS6, "all"), (2, c01.GAPS6, "all"), (3, c01.GAPS2, "none" if quick else "adjacent")]
+    lex = [(1, c01.GAPS6, "all"), (2, c01.GAPS6, "all"),
+           (3, (None,), "none") if quick else (3, c01.GAPS2, "adjacent")]
     for n, gapset, deco in lex:
-        for firsts in ([c01.LEX] if n == 1 else [(x,) for x in c01.LEX]):
+        for firsts in ([c01.LEX] if n == 1 or (n == 3 and quick) else [(x,) for x in c01.LEX]):
             P.append((shard_sentences, ("lex", tuple(firsts), n, gapset, deco)))
     P += [(shard_sentences, ("struct", "full", 2, 2, 2, p, 8, None)) for p in range(8)]
-    P += [(shard_sentences, ("struct", "chain", 2, 5, 3, p, 6, (None, 3, 5))) for p in range(6)]
+    P += [(shard_sentences, ("struct", "chain", 2, 5, 3, p, 6, (None, 3, 4 if quick else 5))) for p in range(6)]
     P += [(shard_sentences, ("struct", "mags", 2, 2, 2, p, 16, None)) for p in range(16)]
     if not quick:
         P += [(shard_sentences, ("struct", "mags3", 2, 3, 2, p, 32, (None, 3, 3))) for p in range(32)]
